@@ -259,4 +259,12 @@ theorem cow_methods_are_source : Generated.cowCalls =
      ("ReadlinkIfPossible", [0, 0]), ("Remove", [0, 0]), ("RemoveAll", [0, 0]), ("Rename", [0, 1]), ("Stat", [0, 0]),
      ("SymlinkIfPossible", [0, 0])] := by decide
 
+/-- **in the current copyOnWriteFs.go no exported method of `CopyOnWriteFs` calls anything on the base but `Open`,
+    `OpenFile` (whose flags are masked: `cowWriteMask_is_source`) and `Stat`** — every call into a layer, in source
+    order, is extracted by harness/cmd/facts on every run; a new `u.base.Remove(…)`, `u.base.Chmod(…)`, … breaks
+    this obligation -/
+theorem cow_source_only_reads_base :
+    (Generated.cowOrder.all fun r => r.2.all fun c => c.1 ≠ "base" ∨ c.2 = "Open" ∨ c.2 = "OpenFile" ∨ c.2 = "Stat") = true := by
+  decide
+
 end AferoVerif.C05
